@@ -24,16 +24,16 @@ PROFILES = {
     "C01": dict(peers=pipegen.DISTINCT_PEERS, reup=False, metrics=False, query_ops=True, reload=True),
     # `ingress` = % of the cases with an ingress story: a second ingress unit from the start, a reload that takes bmp-in out of the
     # configuration (J 0) and, often, a later one that puts it back (J 1), the router returning to the new unit; JL reads the router lists
-    "C02": dict(peers=None, reup=False, metrics=False, query_ops=True, reload=True, ingress=20),
+    "C02": dict(peers=None, reup=False, metrics=False, query_ops=True, reload=True, ingress=20, bgp=15),
     "C03": dict(peers=pipegen.DISTINCT_PEERS[:4], reup=True, metrics=False, query_ops=True, reload=True, reload_pc=30, ingress=25),
-    "C15": dict(peers=[0, 3, 5, 6, 8], reup=True, metrics=True, query_ops=False, reload=True),
+    "C15": dict(peers=[0, 3, 5, 6, 8], reup=True, metrics=True, query_ops=False, reload=True, bgp=10, bgp_reloads=True),
     # C13: the configuration is reloaded under traffic; sessions and RIB contents must survive, later routers must be served
     # (variants = reloads that change the bmp unit's router_id_template; V k reads which template labels a router's series)
     # ... and, in 40 % of the cases, a Roto script: named at start-up (F), edited / renamed / removed (W) and a second RIB unit
     # added / removed / re-typed (Y) before a reload; P asks the second unit
     # ... and, in 35 % of the cases, a shorthand RIB (K n: `filter_names` with n+1 entries = a physical RIB and n generated vRIBs) whose
     # vRIB endpoints are asked (N i af p) at start-up and after every reload, also reloads that change the number of vRIBs
-    "C13": dict(peers=pipegen.DISTINCT_PEERS, reup=False, metrics=False, query_ops=True, reload=True, reload_pc=100, variants=True, scripts=40, vribs=35, ingress=25),
+    "C13": dict(peers=pipegen.DISTINCT_PEERS, reup=False, metrics=False, query_ops=True, reload=True, reload_pc=100, variants=True, scripts=40, vribs=35, ingress=25, bgp=15, bgp_reloads=True),
     # C10: which script a unit's rib-in-pre filter comes from: every case has a script story (F / W / Y / P around reloads)
     "C10": dict(peers=pipegen.DISTINCT_PEERS, reup=False, metrics=False, query_ops=True, reload=False, scripts=100),
     # C14: routers come back, also after the listener was re-bound; G k = how many ingress ids router k has been given
@@ -190,6 +190,131 @@ CORPUS["C03"] = CORPUS["C03"] + [
 ]
 
 
+# A bgp-tcp-in unit in the pipeline (a case with B? ops): BO k = a BGP speaker of address 127.0.0.<30+k> connects and sends OPEN (start-up
+# configuration: peer entries for 0 and 1), BA k a ps ws = an UPDATE, BZ k [1] = the speaker closes (1: NOTIFICATION first), BP k v / BS a =
+# the operator edits the peer entry of k (0 none, 1 / 2 two hold times) / my_asn; effective with the next H / L, which print the sessions
+# the load ended; BM = the unit's counters.
+BGP_CORPUS = [
+    # seeded C02-c2 (ingresses.register() hoisted out of the accept loop: one ingress id for every connection of the unit): two peers
+    # announce one prefix - two entries; one session ends - the other peer's routes stay
+    "BO 0;BO 1;BA 0 1 1,2 -;BA 1 2 1,3 -;Q 0 1;BZ 0;Q 0 1;Q 0 2;Q 0 3;BM",
+    "BO 0;BO 1;BA 0 1 1 -;BA 1 2 1 -;BZ 1 1;Q 0 1;BO 1;BA 1 3 1 -;Q 0 1;BA 0 4 - 1;Q 0 1;BM",
+    # ... next to a BMP router: its routes are not touched either
+    "C 0;I 0;U 0 0 0;R 0 0 0 1 1 0 -;BO 0;BO 1;BA 0 2 1 -;BA 1 3 1 -;BZ 0;Q 0 1;X 0;Q 0 1",
+    # seeded C13-c2 (the unit's configuration loaded once per listener bind): a reload that adds a peer, removes one, changes my_asn -
+    # listen unchanged: new connections are judged by the configuration of the LATEST load
+    "BO 2;BP 2 1;H;BO 2;BA 2 3 1 -;Q 0 1;BM",
+    "BO 0;BZ 0;BP 0 0;H;BO 0;BM",
+    "BS 1;H;BO 0;BP 1 2;H;BO 1;BM",
+    "BO 4;BP 4 2;BP 0 0;BS 1;H;BO 4;BO 0;H;BP 4 0;H;BM;BS 0;BP 0 1;H;BO 0;BO 4;BM",
+    # a reload that changes nothing for a session leaves it alone; one that changes ANOTHER peer's entry too
+    "BO 0;BO 1;BA 0 1 1 -;BA 1 2 1 -;H;BP 2 1;H;L;BA 0 3 2 -;Q 0 1;Q 0 2;BP 1 2;H;BA 0 4 3 -;Q 0 3;BM",
+    # known finding C13-bgp-reload-end-unheard: the Withdraw of a session that a load ends (peer entry removed / changed, my_asn changed)
+    # may reach nobody
+    "BO 0;BO 1;BA 0 1 1 -;BA 1 2 1 -;BP 0 0;H;Q 0 1;BM",
+    "BO 0;BO 1;BA 0 1 1 -;BA 1 2 1 -;BS 1;H;Q 0 1;BO 0;BA 0 3 1 -;Q 0 1;BM",
+]
+CORPUS["C13"] = CORPUS["C13"] + BGP_CORPUS
+CORPUS["C02"] = CORPUS["C02"] + BGP_CORPUS[:8]      # (the two racy cases of the known finding are C13's: each costs a minimisation)
+CORPUS["C15"] = CORPUS["C15"] + [c for c in BGP_CORPUS[:8] if "BM" in c]
+
+
+def bgp_story(rng, ops, reloads):
+    """A case around the bgp-tcp-in unit: a few of the BMP ops of the generated case are kept (their router's routes must not move),
+    then BGP speakers of the five addresses connect, announce overlapping prefixes, close; with `reloads` the operator edits peer
+    entries / my_asn, reloads, and speakers connect afterwards. The generator follows the peer table and the sessions so that most
+    ops meet a live session; what the unit does is the model's business."""
+    keep = [o for o in ops if o.split()[0] in ("C", "I", "U", "R", "X", "Q")][:rng.range(0, 6)]
+    out = list(keep)
+    cfg = {0: 1, 1: 1}
+    file = dict(cfg)
+    asn = fasn = 0
+    sess = {}
+    anns = {}          # address -> prefixes its session has announced
+    tainted = set()    # prefixes announced by a session that a load ended: whether they read withdrawn is a race (known finding
+                       # C13-bgp-reload-end-unheard, shown by the corpus); generated cases do not ask about them - every case that meets
+                       # the race is repeated and minimised, which costs minutes
+
+    def ask(p):
+        if p not in tainted:
+            out.append(f"Q 0 {p}")
+
+    def opn(k):
+        out.append(f"BO {k}")
+        if k not in sess and k in cfg:
+            sess[k] = (asn, cfg[k])
+
+    def ann():
+        if not sess:
+            return
+        k = rng.choice(sorted(sess))
+        if rng.chance(80):
+            ps = pipegen.plist(rng, 1, 2)
+            anns.setdefault(k, set()).update(int(x) for x in ps.split(","))
+            out.append(f"BA {k} {rng.below(5)} {ps} -")
+        else:
+            out.append(f"BA {k} {rng.below(5)} - {pipegen.plist(rng, 1, 2)}")
+
+    opn(0)
+    if rng.chance(85):
+        opn(1)
+    if rng.chance(30):
+        opn(rng.choice([2, 3, 4]))
+    for _ in range(rng.range(2, 4)):
+        ann()
+    for _ in range(rng.range(2, 5)):
+        r = rng.below(100)
+        if r < 30 and sess:
+            k = rng.choice(sorted(sess))
+            out.append(f"BZ {k}" + (" 1" if rng.chance(30) else ""))
+            del sess[k]
+            anns.pop(k, None)
+            ask(rng.below(3) + 1)
+            if rng.chance(50):
+                opn(k)
+                ann()
+        elif r < 30 + (45 if reloads else 0):
+            touched = []
+            for _ in range(rng.range(1, 2)):
+                # (most edits concern addresses without a session: a session that the load ends may keep its routes - known finding
+                # C13-bgp-reload-end-unheard, a race - and every case that meets it is repeated and minimised)
+                if rng.chance(10 if sess else 30):
+                    fasn = 1 - fasn
+                    out.append(f"BS {fasn}")
+                else:
+                    idle = [a for a in range(5) if a not in sess]
+                    k = rng.choice(idle) if idle and rng.chance(80) else rng.below(5)
+                    v = rng.choice([0, 1, 1, 2])
+                    out.append(f"BP {k} {v}")
+                    if v:
+                        file[k] = v
+                    else:
+                        file.pop(k, None)
+                    touched.append(k)
+            out.append(rng.choice(["H", "H", "H", "L"]))
+            cfg = dict(file)
+            asn = fasn
+            for k in list(sess):
+                if sess[k] != (asn, cfg.get(k)):
+                    del sess[k]
+                    tainted.update(anns.pop(k, set()))
+            for k in touched + ([rng.below(5)] if rng.chance(50) else []):
+                opn(k)
+            if rng.chance(60):
+                ann()
+        else:
+            ann()
+            if rng.chance(40):
+                ask(rng.below(3) + 1)
+    if rng.chance(50):
+        opn(rng.below(5))
+    for p in (1, 2, 3):
+        if rng.chance(70):
+            ask(p)
+    out.append("BM")
+    return out
+
+
 _ROUTER_OPS = ("C", "I", "T", "S", "U", "D", "R", "E", "B", "X", "M", "V", "G")
 
 
@@ -343,6 +468,12 @@ def e2e_engine(prop):
                     out.insert(rng.below(len(out) + 1), rng.choice(kinds))
             if pr.get("scripts") and rng.chance(pr["scripts"]):
                 out = script_story(rng, out)
+            if pr.get("bgp") and rng.chance(pr["bgp"]):
+                story = bgp_story(rng, out, pr.get("bgp_reloads", False))
+                if not pr["query_ops"]:
+                    story = [o for o in story if not o.startswith("Q ")]
+                yield ";".join(story)
+                continue
             if pr.get("vribs") and rng.chance(pr["vribs"]):
                 out = vrib_story(rng, out)
             elif pr.get("ingress") and rng.chance(pr["ingress"]):
@@ -376,6 +507,8 @@ def e2e_engine(prop):
         if any(x.startswith("n:") and not x.endswith(",0") for x in t):
             return True
         if any(x.startswith("r:") for x in t):
+            return True
+        if any(x.startswith("o:") for x in t):
             return True
         if any(x.startswith("t:") and x not in ("t:0", "t:-") for x in t):
             return True
@@ -433,6 +566,26 @@ def e2e_engine(prop):
             ks.append("vrib-count-edited")
         if "v:STALL" in t:
             ks.append("vrib-never-answers")
+        if any(x.startswith("o:") for x in t):
+            ks.append("bgp-unit")
+            if sum(1 for x in t if x.startswith("o:") and x != "o:-") >= 2:
+                ks.append("bgp-sessions>=2")
+            if "o:-" in t:
+                ks.append("bgp-connection-refused")
+            if any(x.startswith("x:") and x != "x:" for x in t):
+                ks.append("bgp-session-ended-by-reload")
+            seen_reload = False
+            for o, x in (zip(ops, t) if len(t) == len(ops) else []):
+                if o.split() and o.split()[0] in ("H", "L"):
+                    seen_reload = True
+                if seen_reload and x.startswith("o:"):
+                    ks.append("bgp-connection-after-reload-refused" if x == "o:-" else "bgp-connection-after-reload-accepted")
+            if any(x.startswith("o:1,") for x in t):
+                ks.append("bgp-open-with-new-my-asn")
+            if any(x.startswith("o:") and x.endswith(",120") for x in t):
+                ks.append("bgp-open-with-new-hold-time")
+            if any(x.startswith("q:") and "=W" in x and "=A" in x and x.count("b") >= 2 for x in t):
+                ks.append("bgp-one-peer-withdrawn-other-active")
         if "J" in names or "JL" in names:
             ks.append("second-ingress-unit")
             want, run, removed, conn, seen_w = True, True, False, set(), False
